@@ -170,7 +170,7 @@ class FactoredInference:
         print('Lipchitz constant:', L)
         if L == 0: return
  
-        theta = model.potentials
+        theta0 = theta = model.potentials
         gbar = CliqueVector({ cl : self.Factor.zeros(domain.project(cl)) for cl in cliques })
         w = v = model.belief_propagation(theta)
         beta = 0
@@ -180,7 +180,7 @@ class FactoredInference:
             u = (1-c)*w + c*v
             _, g = self._marginal_loss(u) # not interested in loss of this query point
             gbar = (1-c)*gbar + c*g
-            theta = -t*(t+1)/(4*L+beta)/self.model.total * gbar 
+            theta = theta0 + -t*(t+1)/(4*L+beta)/self.model.total * gbar 
             v = model.belief_propagation(theta)
             w = (1-c)*w + c*v
            
